@@ -1,6 +1,8 @@
-// C06 correspondence runner: drives the REAL ProcessDeposits of the three chain kinds and the real
-// retry handlers (EVM RetryV1EventHandler, Substrate RetryEventHandler) over fake clients /
-// connections that return ranges mixing healthy deposits with poisoned ones.  The real deposit
+// C06 correspondence runner: drives the REAL HandleEvents (and through it ProcessDeposits) of the
+// deposit event handlers of the three chain kinds and of the real retry handlers (EVM
+// RetryV1EventHandler, Substrate RetryEventHandler) over fake clients / connections that return
+// ranges mixing healthy deposits with poisoned ones, collects what they push to the message channel
+// and hands it to sygma-core's real Relayer (route.go).  The real deposit
 // handlers (and, on EVM, the real events.Listener ABI decoding) sit underneath, so the bytes decide
 // what a poisoned deposit yields.  Every case runs in a CHILD PROCESS (this binary re-executed with
 // -child, address space capped, deadline per case) so that a crash is an observation.
@@ -62,8 +64,10 @@ type Obs struct {
 	Crashed bool       `json:"crashed"`
 	Failed  bool       `json:"failed"`
 	Note    string     `json:"note,omitempty"`
-	Groups  []Group    `json:"groups"`
+	Groups  []Group    `json:"groups"` // per destination chain: what it received through the real Relayer.route
 	Deps    [][]DepObs `json:"deps"`
+	// the batches HandleEvents pushed to the message channel (canonical order); null = a nil message
+	Sent [][]*SentMsg `json:"sent"`
 }
 
 // ---- parent side: persistent child, one case per line ----------------------------------------------
@@ -255,6 +259,14 @@ func coq(c Case, o Obs) string {
 	return "Case " + c.Path + " " + vgen.List(evs) + " " + vgen.Bool(o.Crashed) + " " + vgen.Bool(o.Failed) + " " +
 		vgen.ListOf(o.Groups, func(g Group) string {
 			return vgen.Pair(vgen.N(uint64(g.Dest)), vgen.ListOf(g.Nonces, vgen.N))
+		}) + " " +
+		vgen.ListOf(o.Sent, func(b []*SentMsg) string {
+			return vgen.ListOf(b, func(m *SentMsg) string {
+				if m == nil {
+					return "None"
+				}
+				return vgen.Some(vgen.Pair(vgen.N(uint64(m.Dest)), vgen.N(m.Nonce)))
+			})
 		})
 }
 
@@ -304,7 +316,7 @@ func main() {
 		Run:       run,
 		Coq:       coq,
 		Kind:      kind,
-		ShardSize: 120,
+		ShardSize: 150,
 		NonTrivial: func(c Case, o Obs) bool {
 			// a range holding at least one poisoned and at least one healthy deposit
 			g, b := false, false
@@ -322,6 +334,6 @@ func main() {
 			}
 			return g && b
 		},
-		Rule: "per path (EVM/Substrate/BTC ProcessDeposits, EVM RetryV1, Substrate Retry): every poison of the catalogue (empty, 1 byte, guard-1, guard, length words 2^63-1 / 2^63 / 2^64-20 / 2^64+20 / 2^255 / 2^256-1, truncated tails, 1..31-byte handler responses, ERC1155 offsets outside, OP_RETURN of 0/1/2 bytes, no '_', non-numeric domain, ill-typed Substrate fields, unparsable logs, unknown resources) at every position of a range of three healthy neighbours, plus random ranges of 1..6 deposits in 1..3 events with several poisons; distinct = distinct input JSON; non-trivial = the range holds at least one poisoned and at least one well-formed deposit",
+		Rule: "per path (EVM/Substrate/BTC ProcessDeposits, EVM RetryV1, Substrate Retry): every poison of the catalogue (empty, 1 byte, guard-1, guard, length words 2^63-1 / 2^63 / 2^64-20 / 2^64+20 / 2^255 / 2^256-1, truncated tails, 1..31-byte handler responses, ERC1155 offsets outside, OP_RETURN of 0/1/2 bytes, no '_', non-numeric domain, ill-typed Substrate fields, unparsable logs, unknown resources) at every position of a range of three healthy neighbours, each poison alone at its destination among healthy deposits for other destinations, all-poison ranges, plus random ranges of 1..6 deposits in 1..3 events with several poisons; HandleEvents is driven, every batch on the message channel is observed and routed through sygma-core's real Relayer.route in the child process; distinct = distinct input JSON; non-trivial = the range holds at least one poisoned and at least one well-formed deposit",
 	})
 }
